@@ -5,6 +5,7 @@ HERE = os.path.dirname(os.path.dirname(os.path.abspath(__file__)))
 res = json.load(open(os.path.join(HERE, "seeded", "RESULTS.json")))
 rows = ["| id | prop. | what the change does (sub-agent's words, shortened) | detected by the quick check (violating runs / runs) | signatures reported |", "|---|---|---|---|---|"]
 nd = 0
+nd_other = []
 for sid in sorted(res):
     r = res[sid]
     if "error" in r:
@@ -12,13 +13,21 @@ for sid in sorted(res):
         continue
     s = re.sub(r"\s+", " ", r.get("summary", "")).replace("|", "/")[:170]
     sigs = ", ".join(f"{k.split(':', 1)[1]}x{v}" for k, v in sorted(r.get("reported_sigs", {}).items()))
+    try:
+        meta = json.load(open(os.path.join(HERE, "seeded", sid, "meta.json")))
+    except Exception:
+        meta = {}
+    also = "; ".join(f"by {k}: {v}" for k, v in (meta.get("also_detected_by") or {}).items())
     if r["exit"] == 1:
-        det = f"yes, {r['violating_runs']}/{r['runs']}"
+        det = f"yes, {r['violating_runs']}/{r['runs']}" + (f" ({also})" if also else "")
         nd += 1
     else:
-        det = "**no** (see note)"
+        det = "**no** (see note)" + (f"; {also}" if also else "")
+        if also:
+            nd_other.append(sid)
     rows.append(f"| {sid} | {r['property']} | {s} | {det} | {sigs} |")
-table = "\n".join(rows) + f"\n\n{nd} of {len(res)} seeded changes are detected by the quick tier of the check of their property.\n"
+table = "\n".join(rows) + (f"\n\n{nd} of {len(res)} seeded changes are detected by the quick tier of the check of their property"
+                             + (f"; {len(nd_other)} more ({', '.join(nd_other)}) by the check of another property" if nd_other else "") + ".\n")
 p = os.path.join(HERE, "DESIGN.md")
 s = open(p).read()
 if "SEEDED_TABLE_PLACEHOLDER" in s:
